@@ -71,6 +71,11 @@ func (o divOp) nbChoices(level int) []int {
 	return r
 }
 
+// sigCIFloorNTT: DivFloorByLastModulusNTT hands the INTTLazy output of the last row (range [0,2q_l)) to the other
+// moduli without reducing it; the conjugate-invariant INTTLazy returns q_l for a zero coefficient, so every coefficient
+// divisible by q_l comes out one too small.
+const sigCIFloorNTT = "C02/div/DivFloorByLastModulusNTT/conjugate-invariant/coefficient-divisible-by-dropped-modulus-off-by-one"
+
 var aliasNames = []string{"out-at-reduced-level", "in-place", "out-at-input-level"}
 
 // outPoly returns the output polynomial for an alias mode (documented: "Output poly level must be equal or
@@ -101,7 +106,7 @@ func divTinyScenario(mod []uint64, o divOp, nb, alias, parts int) engine.Scenari
 		part := c.Choose(parts, "part")
 		r := mustRing(mod)
 		rOut := r.AtLevel(level - nb)
-		nPolys := (Q + N - 1) / N
+		nPolys := (Q + uint64(N) - 1) / uint64(N)
 		lo := nPolys * uint64(part) / uint64(parts)
 		hi := nPolys * uint64(part+1) / uint64(parts)
 		p0 := r.NewPoly()
@@ -111,7 +116,7 @@ func divTinyScenario(mod []uint64, o divOp, nb, alias, parts int) engine.Scenari
 		var h uint64
 		for p := lo; p < hi; p++ {
 			for j := 0; j < N; j++ {
-				x := (p*N + uint64(j)) % Q
+				x := (p*uint64(N) + uint64(j)) % Q
 				xs[j] = x
 				for i, q := range mod {
 					p0.Coeffs[i][j] = x % q
@@ -142,7 +147,7 @@ func divTinyScenario(mod []uint64, o divOp, nb, alias, parts int) engine.Scenari
 				q := mod[i]
 				for j := 0; j < N; j++ {
 					if out.Coeffs[i][j]%q != want[j]%q {
-						c.Fail("C02/div/"+o.name+"/quotient", "Q=%v nb=%d %s: x=%d lane %d: result mod q_%d=%d is %d, exact %s quotient %d ≡ %d",
+						fail(c, "C02/div/"+o.name+"/quotient", "Q=%v nb=%d %s: x=%d lane %d: result mod q_%d=%d is %d, exact %s quotient %d ≡ %d",
 							mod, nb, aliasNames[alias], xs[j], j, i, q, out.Coeffs[i][j]%q, map[bool]string{true: "rounded", false: "floored"}[o.round], want[j], want[j]%q)
 						return
 					}
@@ -244,7 +249,13 @@ func divAlphaScenario(ch chain, o divOp) engine.Scenario {
 					q := mod[i]
 					for j := 0; j < N; j++ {
 						if w := ref.ModU(want[j], q); out.Coeffs[i][j]%q != w {
-							c.Fail("C02/div/"+o.name+"/quotient", "%s Q=%v level=%d nb=%d %s: x=%s lane %d: result mod q_%d=%d is %d, exact quotient %s ≡ %d",
+							if CI && o.name == "DivFloorByLastModulusNTT" && ref.ModU(xs[j], mod[level]) == 0 {
+								// known input class (FINDINGS.md): conjugate-invariant ring, coefficient divisible by the
+								// dropped modulus; keep judging the other coefficients
+								fail(c, sigCIFloorNTT, "%s Q=%v level=%d %s: x=%s ≡ 0 mod q_l lane %d: result mod %d is %d, exact floored quotient ≡ %d", ch.name, mod[:level+1], level, aliasNames[alias], xs[j], j, q, out.Coeffs[i][j]%q, w)
+								continue
+							}
+							fail(c, "C02/div/"+o.name+"/quotient", "%s Q=%v level=%d nb=%d %s: x=%s lane %d: result mod q_%d=%d is %d, exact quotient %s ≡ %d",
 								ch.name, mod[:level+1], level, nb, aliasNames[alias], xs[j], j, i, q, out.Coeffs[i][j]%q, want[j], w)
 							return
 						}
